@@ -769,7 +769,7 @@ def shard(arg):
             res.count('tree-out:' + t)
         if {'default-rebound', 'ns-attr-made-up-prefix', 'uris>=2'} <= shape:
             res.count('tree-out:all-three')
-        if tree_in_domain(tree) and i % 2 == 0:
+        if tree_in_domain(tree) and i % 3 == 0:
             corr.add_reparse(out, {'kind': 'read', 'text': out})
             try:
                 events2 = list(XML(out))
